@@ -10,7 +10,7 @@ for d in sorted(glob.glob(ROOT+'/C*-*')):
               needs_to_manifest=' '.join(notes.split('\n\n')[1:3])[:900] if notes else '',
               confirmed_by_me=dict(), checks=[])
     # confirmation line from seed_all.log
-    for l in open('/var/tmp/avx/seed_all.log'):
+    for l in open('/var/tmp/avx/seed_cat.log'):
         if l.startswith(sid+' demo'):
             meta['confirmed_by_me']=dict(command='tools/seed_eval.sh %s %s (in the scratch worktree: git apply patch.diff; cargo test --offline --test seeded_demo; cargo test --offline)'%(pid,var), outcome=l.strip()[:600])
     for lg in sorted(glob.glob('/var/tmp/avx/seed_%s-*.log'%sid)):
